@@ -186,7 +186,39 @@ def _gen_unread_upload(rng, tier):
                "truth": {"kind": "unread-upload", "tag": tag, "behind": behind, "mode": mode, "nch": nch, "q": q}, "sched": {"seed": rng.randrange(1 << 30)}, "horizon": 100.0}
 
 
+def _gen_app_aborted(rng, tier):
+    """A response the *application* leaves unfinished (it returns or fails after the response start: short of the declared length, or a
+    chunked body without its end): an aborted message - the server closes after it, nothing pipelined behind it is served."""
+    for i in range(60 if tier == "quick" else 1500):
+        nreq = rng.choice([2, 2, 3, 4])
+        victim = rng.randrange(nreq - 1) if rng.random() < 0.8 else nreq - 1
+        by_tag, datas = {}, []
+        base = 5600000 + i * 10
+        how = rng.choice(["return", "raise"])
+        framing = rng.choice(["cl", "chunked"])
+        for k in range(nreq):
+            tag = base + k
+            if k == victim:
+                hdrs = [(b"x-tag", b"%d" % tag)] + ([(b"content-length", b"100")] if framing == "cl" else [])
+                sc = [["recv_until_end"], ["send", {"type": "http.response.start", "status": 200, "headers": hdrs}]]
+                if rng.random() < 0.7:
+                    sc.append(["send", {"type": "http.response.body", "body": b"part-%d;" % tag, "more_body": True}])
+                sc.append(["return"] if how == "return" else ["raise", "Exception"])
+            else:
+                sc = [["recv_until_end"], ["respond", 200, [(b"x-tag", b"%d" % tag)], b"whole-%d" % tag]]
+            by_tag[str(tag)] = sc
+            datas.append(b"GET /t%d HTTP/1.1\r\nHost: h\r\n\r\n" % tag)
+        blob = b"".join(datas)
+        client = [["feed_split", blob, [len(blob)]] if rng.random() < 0.6 else ["feed_split", blob, G.gen_splits(rng, len(blob), "k")],
+                  ["settle"], ["advance", 1.0], ["settle"]]
+        yield {"family": "app-aborted.%s.%s" % (framing, how), "backends": ["asyncio", "trio"], "config": {"keep_alive_timeout": 5000}, "conn": {},
+               "apps": {"default": [["recv_until_end"], ["respond", 200, [], b"d"]], "by_tag": by_tag}, "client": client,
+               "truth": {"kind": "app-aborted", "tags": [base + k for k in range(nreq)], "victim": victim},
+               "sched": {"seed": rng.randrange(1 << 30)}, "horizon": 100.0}
+
+
 def gen(rng, tier):
+    yield from _gen_app_aborted(rng, tier)
     yield from _gen_unread_upload(rng, tier)
     yield from _gen_early_answer(rng, tier)
     yield from _gen_aborted(rng, tier)
@@ -245,7 +277,7 @@ def nontrivial(case, obs):
     t = case["truth"]
     if t.get("kind") == "aborted":
         return any(e[2] == "net" and e[3] == "write_error" for e in obs.trace.events)
-    if t.get("kind") in ("malformed", "early-answer", "unread-upload"):
+    if t.get("kind") in ("malformed", "early-answer", "unread-upload", "app-aborted"):
         return True
     return len(t["requests"]) > 1 or t["maxreq"] == 1 or any(wants_close(r) or r["version"] == "1.0" for r in t["requests"])
 
@@ -324,6 +356,18 @@ def check(case, obs, tally):
         elif obs.closed_at is None:
             out.append({"clause": "must-close", "sig": "C06.not-closed-after-must-close/early-answer",
                         "detail": "request body incomplete, response complete, connection still open at quiescence"})
+        return out
+    if t.get("kind") == "app-aborted":
+        tally.clause("app-aborted-closes")
+        starts = [e[4]["scope"].get("path") for e in obs.app_events(kind="start")]
+        want = ["/t%d" % x for x in t["tags"][:t["victim"] + 1]]
+        if obs.closed_at is None:
+            out.append({"clause": "app-aborted-closes", "sig": "C06.app-aborted/connection-left-open",
+                        "detail": "the application of request #%d left its response unfinished; a second later the connection is still open (started: %r)" % (
+                            t["victim"], starts)})
+        if starts != want:
+            out.append({"clause": "app-aborted-closes", "sig": "C06.app-aborted/pipeline-served-after",
+                        "detail": "applications started %r, expected %r (nothing behind the aborted response)" % (starts, want)})
         return out
     if t.get("kind") == "aborted":
         lost = next((e for e in obs.trace.events if e[2] == "net" and e[3] == "write_error"), None)
